@@ -274,6 +274,10 @@ h("kd9_fill_window_slide_keeps_deferred_match", D + "/kd9_window.rs", "deflate::
   bounds="w_size 512 (window 1024 symbolic bytes), any strstart >= w_size + max_dist, any lookahead < MIN_LOOKAHEAD, any block_start/insert, any deferred match "
          "(match_start, prev_length <= 258) satisfying the loop-head invariant of deflate_slow at one symbolic offset (the invariant is pointwise)",
   assumptions=["slide_hash -> no-op (decided by kd9_slide_hash_chain)", "avail_in == 0: fill_window returns after the slide"])
+h("kd9_longest_match_any_chain_length", D + "/kd9_window.rs", "deflate::verif_kani::kd9_window", ["C06", "C16"], kernel="KD9", expect_s=60, timeout=1200, weight=2, mem_gb=16,
+  functions=["deflate::longest_match::longest_match (chain walk, chain counter)"],
+  bounds="concrete 1 KiB window and hash chain of three non-matching candidates; any max_chain_length / good_match / nice_match (what deflateTune can store)",
+  assumptions=["unwind 1032 for the window-filling loop of the harness only"], unwindset=[("longest_match::longest_match_help", None, 6), ("kd9_window::kd9_longest_match_any_chain_length", None, 1030)])
 h("kd9_slide_hash_chain", "zlib-rs/src/deflate/slide_hash/verif_kani.rs", "deflate::slide_hash::verif_kani", ["C01"], kernel="KD9", expect_s=60, timeout=900,
   functions=["slide_hash::slide_hash_chain", "generic_slide_hash_chain::<32>"], bounds="64 symbolic entries, any wsize")
 
@@ -364,6 +368,12 @@ h("ki7_inflate_copyblock", I + "/ki7_inflate.rs", "inflate::verif_kani::ki7_infl
   bounds="resumed stored block (remaining <= 5), final block, wrap in {0,1,5}, 0..=7 input bytes, output capacity 0..=4 in a canaried array, any flush, "
          "any running checksum and totals, window W = 4",
   assumptions=STEP_ASSUME + ["adler32::adler32 -> byte-wise fold model (which bytes are folded, once, in order; Adler-32 itself is C09's subject)"])
+for _b in (8, 16, 32):
+    h("ki7_inflate_primed_%d_then_fast" % _b, I + "/ki7_inflate.rs", "inflate::verif_kani::ki7_inflate", ["C15", "C02", "C16"], kernel="KI7", expect_s=120, timeout=1800, weight=2, mem_gb=16,
+      unwindset=DISPATCH_US(8) + [("State::<'_>::len_and_friends", None, 3)],
+      functions=["inflate::inflate (prologue, epilogue cursor arithmetic)", "State::dispatch", "State::len_and_friends (hand-over to inflate_fast)"],
+      bounds="raw stream in Mode::Len on the fixed tables, last block; %d zero bits in the register as left by inflatePrime (the end-of-block code is among them), 16 input bytes, 300 bytes of output space" % _b,
+      assumptions=["inflate_fast_help -> contract stub asserting zlib's documented entry assumption bits < 8 (the stub decodes nothing; the slow path continues)", "inflate_table stubbed by assume(false)"])
 h("ki7_inflate_terminal", I + "/ki7_inflate.rs", "inflate::verif_kani::ki7_inflate", ["C15", "C16", "C02"],
   kernel="KI7", expect_s=60, timeout=900,
   functions=["inflate::inflate"], bounds="modes Done and Bad, NULL or valid next_in/next_out, avail_in <= 4, any flush", assumptions=STEP_ASSUME)
@@ -413,6 +423,17 @@ for _d in (0, 1, 3, 5, 6, 7, 8):
              "non-final stored block of exactly 16 bytes (fills and flushes the window), final fixed block with 1 literal, length-3 code, distance "
              "code %d; then ceil(extra/8) symbolic bytes (all extra-bit values); distances <= 16 must be accepted and copy from the ring, larger rejected" % _d,
       assumptions=KB1_AS)
+
+for _nm in ("s1", "s2"):
+    h("kb1_back_fast_toofar_" + _nm, I + "/kb1_back.rs", "inflate::verif_kani::kb1_back", ["C19", "C02"],
+      kernel="KB1", expect_s=60, timeout=1200, weight=2, mem_gb=16,
+      unwindset=[("infback::back", None, 3), ("infback::back", 0, 8),
+                 ("infback::back", ("zlib-rs/src/inflate/infback.rs", "for _ in 0..copy {"), 5), ("infback::back", ("zlib-rs/src/inflate/infback.rs", "while usize::from(bits) < $n {"), 5)],
+      functions=["inflate::infback::back (slow path for the first symbol, hand-over to the fast loop)"],
+      bounds="512-byte window; 44-byte stream: final fixed block, 1 literal, length 3 with distance 2 (only 1 byte of data exists), then 40 literals and the end-of-block code (a valid stream but for that distance); "
+             "input delivered as a first slice of 1 byte (the fast loop is entered with one byte of output already produced) or 2 bytes (slow path decodes the match) and the rest",
+      assumptions=["inflate_table stubbed by assume(false)", "inflate_fast_back -> contract stub: asserts window.have() in {0, window size} (history before the window buffer only), "
+                   "then reports the too-far distance as the real loop does when that holds (the real loop did not finish in 1800 s even on concrete input)"])
 
 # ---------------------------------------------------------------- checksums (C09)
 CB = "zlib-rs/src/crc32/braid/verif_kani.rs"
@@ -526,6 +547,12 @@ h("kd7_gzip_start_stale_gzindex", D + "/kd7_machine.rs", "deflate::verif_kani::k
   functions=["deflate::deflate (gzip header from Status::GZip: fixed part, Name/Comment, trailer)", "flush_bytes"],
   bounds="new gzip member (status GZip) with a stale gzindex 0..=3 left by an abandoned member, name or comment of 3 symbolic chars, no extra field, ample output",
   assumptions=RUNSTUB + ["crc32 -> nondeterministic", "CStr::from_ptr -> explicit-loop model"])
+for _r, _a in ((0, 1), (1, 1), (1, 40), (2, 1), (3, 40)):
+    h("kd7_gzip_hcrc_room%d_out%d" % (_r, _a), D + "/kd7_machine.rs", "deflate::verif_kani::kd7_machine", ["C20", "C06"], kernel="KD7", expect_s=60, timeout=1200, weight=2, mem_gb=16,
+      functions=["deflate::deflate (Status::Hcrc, flush_pending, trailer)"],
+      bounds="gzip header with a name that leaves %d byte(s) of room in the 32-byte pending buffer when the Hcrc state is reached, any CRC of the earlier header bytes, "
+             "first call with %d byte(s) of output space, second call with ample space" % (_r, _a),
+      assumptions=RUNSTUB + ["crc32 -> order-sensitive byte-wise fold model", "CStr::from_ptr -> explicit-loop model"])
 h("kd7_starved_flush_is_completed_by_the_next_call", D + "/kd7_machine.rs", "deflate::verif_kani::kd7_machine", ["C11", "C06"], kernel="KD7", expect_s=120, timeout=1200, weight=2, mem_gb=16,
   functions=["deflate::deflate (last_flush / duplicate-flush logic, NeedMore with avail_out == 0, marker emission)"],
   bounds="raw stream in status Busy, any previous flush value incl. -1/-2, any flush but NoFlush, 3 input bytes; call 1 with one byte of space (the compress function runs out of space), call 2 with 15 bytes and no input",
@@ -537,6 +564,10 @@ h("kd7_refused_call_without_space_is_harmless", D + "/kd7_machine.rs", "deflate:
 h("ka3_default_allocator_fallback_is_a_matched_pair", "zlib-rs/src/allocate/verif_kani.rs", "allocate::verif_kani", ["C18"], kernel="KA1", expect_s=10, timeout=300,
   functions=["z_stream::configure_default_rust_allocator", "z_stream::configure_allocator"], bounds="every subset of {zalloc, zfree} supplied by the caller",
   assumptions=["the harness repeats the 3-line prologue shared by deflate::init / inflate::init / inflateBackInit (init itself is not encodable)"])
+h("ki8_reset_forgets_header_window_bits", I + "/ki8_entry.rs", "inflate::verif_kani::ki8_entry", ["C14", "C03"], kernel="KI8", expect_s=60, timeout=900, unwindset=DISPATCH_US(3),
+  functions=["State::dispatch (mode Head with windowBits 0)", "inflate::reset", "inflate::reset_keep"],
+  bounds="zlib wrapper, windowBits 0 at init, any valid zlib header without FDICT (every CINFO), then inflateReset; then an explicit size and another reset",
+  assumptions=STEP_ASSUME)
 h("ki8_sync_then_inflate", I + "/ki8_entry.rs", "inflate::verif_kani::ki8_entry", ["C15", "C16"], kernel="KI8", expect_s=60, timeout=900,
   functions=["inflate::sync", "inflate::inflate", "inflate::reset", "State::dispatch (TypeDo, Stored, CopyBlock, Check, Length, Done)"],
   bounds="any running totals < 2^40, concrete marker + final stored block with 2 symbolic data bytes", assumptions=STEP_ASSUME)
@@ -590,18 +621,18 @@ QUICK = {
             "ki8_reset_equals_fresh"],
     "C11": ["kd7_starved_flush_is_completed_by_the_next_call", "kd7_zlib_wrapper", "kd8_quick_sync_n3", "kd1_emitters_one_step"],
     "C13": ["ki5a_head_w1_n2", "ki5a_head_w5_n2", "ki5a_dictid_n3", "ki5a_dictid_n4", "ki5a_dictid_n4_have", "ki5a_set_dictionary", "ki3_get_dictionary_order", "kd7_zlib_wrapper", "kd10_set_dictionary_protocol"],
-    "C14": ["kd10_reset_equals_fresh", "ki8_reset_equals_fresh", "ka2_deflate_copy_alloc_failure", "kd10c_pending_clone_to",
+    "C14": ["ki8_reset_forgets_header_window_bits", "kd10_reset_equals_fresh", "ki8_reset_equals_fresh", "ka2_deflate_copy_alloc_failure", "kd10c_pending_clone_to",
             "kd10c_symbuf_clone_to", "ki8c_window_clone_to", "kd7_gzip_start_stale_gzindex"],
-    "C15": ["ki7_inflate_copyblock", "ki7_inflate_terminal", "ki5c_copyblock_resume", "ki1_bitreader_refill_model", "ki8_sync",
+    "C15": ["ki7_inflate_primed_32_then_fast", "ki7_inflate_copyblock", "ki7_inflate_terminal", "ki5c_copyblock_resume", "ki1_bitreader_refill_model", "ki8_sync",
             "ki8_sync_then_inflate", "kd7_zlib_wrapper"],
     "C16": ["ki8_small_entry_points", "ki8_sync", "ki8_reset_equals_fresh", "ki5a_set_dictionary", "kd10_prime", "kd10_params_tune",
             "kd10_set_header", "kd10_set_dictionary_protocol", "ki7_inflate_terminal", "ki5e_terminal_modes"],
     "C18": ["ka3_default_allocator_fallback_is_a_matched_pair", "ka1_alloc_shim", "ka1_alloc_overflow_and_null", "ka2_deflate_copy_alloc_failure", "ka2_deflate_end_releases_once",
             "ka2_inflate_end_releases_once"],
-    "C19": ["kb1_back_lit1_d0", "kb1_back_lit1_d4", "kb1_back_lit1_d16", "kb1_back_lit1_d29", "kb1_back_lit1_d30",
+    "C19": ["kb1_back_fast_toofar_s1", "kb1_back_lit1_d0", "kb1_back_lit1_d4", "kb1_back_lit1_d16", "kb1_back_lit1_d29", "kb1_back_lit1_d30",
             "kb1_back_lit9_d5", "ki2_copy_match_back"],
     "C20": ["ki5b_fixed_part", "ki5b_extra", "ki5b_name_entry_length", "ki5b_comment_entry_length", "ki5b_name", "ki5b_comment", "ki5b_hcrc", "kd10_set_header", "kd7_flush_bytes_unit",
-            "kd7_gzip_resume_extra", "kd7_gzip_resume_name", "kd7_gzip_resume_comment"],
+            "kd7_gzip_resume_extra", "kd7_gzip_resume_name", "kd7_gzip_resume_comment", "kd7_gzip_hcrc_room1_out1", "kd7_gzip_hcrc_room0_out1", "kd7_gzip_hcrc_room3_out40"],
 }
 for _pid, _hs in QUICK.items():
     for _n in _hs:
